@@ -16,6 +16,15 @@ def countsIn (song : Song) : Option (Nat × Int) :=
   song.tracks.findSome? fun (id, evs) =>
     (evs.find? fun e => e.type == ev_LOOP_END && (e.param < 0 || e.param > 255)).map fun e => (id, e.param)
 
+/-- the events of a track behind its last loop point (`SEGNO`), as a flat list: where the player resumes, with
+an empty stack, when it reaches the end of the track -/
+def tailAfterSegno : List Event → Option (List Event)
+  | [] => none
+  | e :: es =>
+    match tailAfterSegno es with
+    | some r => some r
+    | none => if e.type == ev_SEGNO then some es else none
+
 /-- C01 oracle: the real optimiser's output song, expanded by the spec, plays for every original
 track exactly what the input song plays; lengths, loop point times agree; the optimiser did not
 throw and the result validates. -/
@@ -48,7 +57,17 @@ def judge (arg impl : String) : String :=
                 if played items != played oitems then some s!"track {id}: performance changed"
                 else if totalDur items != totalDur oitems then some s!"track {id}: length changed"
                 else if loopTime items != loopTime oitems then some s!"track {id}: loop point time changed"
-                else none
+                else
+                  -- what is played after the jump back to the loop point: the player resumes behind the `SEGNO`
+                  -- with an empty stack, so the flat rest of the track must still be a well-formed section that
+                  -- plays the same (a loop point folded into a new loop leaves a `]` without its `[` there)
+                  match (song.track? id).bind tailAfterSegno, tailAfterSegno oevs with
+                  | some t, some ot =>
+                    match perf song t, perf osong ot with
+                    | .ok a, .ok b => if played a != played b then some s!"track {id}: the section replayed after the loop-back changed" else none
+                    | .ok _, .error _ => some s!"track {id}: the section behind the loop point no longer validates on its own (the loop-back lands inside a new loop)"
+                    | _, _ => none
+                  | _, _ => none
             | _, none => some s!"track {id} disappeared"
             | _, _ => none
           match bad with
